@@ -12,7 +12,7 @@ EXPLANATION = (
     "reset/stop_sending/poll_data). Also decided: end of body is reported only at a real end (poll_data is reached "
     "only with data owed, so a zero-length DATA frame is skipped), trailers read early are kept across Pending. "
     "Byte-exact, in-order delivery of payload bytes is value-level and not decided.")
-RULES = "C03-srv/C03-cli/C03-body/C03-trl request-stream dispatch tables at the discovered sites (A3; rows read off the decisions, whatever the form); C03-eob end of body only at a real end (A2); trailers kept across Pending (A8); C03-unk memo rules (shared); C03-type frame-type table (shared); C03-split halves keep the decoder state"
+RULES = "C03-srv/C03-cli/C03-body/C03-trl request-stream dispatch tables at the discovered sites (A3; rows read off the decisions, whatever the form); C03-eob end of body only at a real end (A2); trailers kept across Pending (A8); C03-unk memo rules (shared); C03-type frame-type table (shared); C03-split halves keep the decoder state; shared through a proxy: C02-e under C03-type"
 
 F = "h3::proto::frame::Frame"
 PN = "h3::frame::FrameStream::poll_next"
@@ -229,3 +229,7 @@ def run(ctx):
     # unknown frames anywhere: the frame reader skips them and keeps going (shared with C02)
     shared.frame_decoder_memo(ctx, "C03-unk")
     ctx.assume("FrameStream::poll_next delivers frames in stream order (C02)")
+    # the error class of a frame that is not allowed where it arrives is decided in the error table (C02-e): run under this property too
+    if not getattr(ctx, "nested", False):
+        from rules import C02 as _c02
+        _c02.run(shared.Proxy(ctx, ("C02-e",), "C03-type"))
